@@ -28,6 +28,7 @@ import (
 	"strconv"
 	"strings"
 	"sync"
+	"sync/atomic"
 	"testing"
 	"time"
 	"unicode/utf8"
@@ -679,11 +680,16 @@ func c19IsSentinel(m jsonrpc.Message, i int) bool {
 	return ok && req.Method == "ping" && req.ID.Raw() == fmt.Sprintf("sentinel-%d", i) && len(req.Params) == 0
 }
 
+// c19Timeouts counts framing exchanges that did not finish in time (a hang in the framing layer).
+var c19Timeouts atomic.Int32
+
+const c19MaxTimeouts = 25
+
 // c19NDEnc: A.Write(sentinel, m, sentinel) -> pipe -> B.Read x3.
 func c19NDEnc(m jsonrpc.Message) (got jsonrpc.Message, err error, frame string) {
 	nd := c19NewND()
 	defer nd.close()
-	ctx, cancel := context.WithTimeout(context.Background(), 20*time.Second)
+	ctx, cancel := context.WithTimeout(context.Background(), 5*time.Second)
 	defer cancel()
 	go func() {
 		for i, x := range []jsonrpc.Message{c19Sentinel(0), m, c19Sentinel(2)} {
@@ -700,6 +706,15 @@ func c19NDEnc(m jsonrpc.Message) (got jsonrpc.Message, err error, frame string) 
 		} else if rerr != nil || !c19IsSentinel(x, i) {
 			frame = "bad"
 		}
+		if ctx.Err() != nil {
+			c19Timeouts.Add(1)
+		}
+		if frame == "bad" { // the stream is out of step: what follows says nothing about this message
+			if i == 0 {
+				err = fmt.Errorf("framing lost before the message: %v", rerr)
+			}
+			return
+		}
 	}
 	return
 }
@@ -708,7 +723,7 @@ func c19NDEnc(m jsonrpc.Message) (got jsonrpc.Message, err error, frame string) 
 func c19NDDec(w []byte) (got jsonrpc.Message, err error, out []byte, frame string) {
 	nd := c19NewND()
 	defer nd.close()
-	ctx, cancel := context.WithTimeout(context.Background(), 20*time.Second)
+	ctx, cancel := context.WithTimeout(context.Background(), 5*time.Second)
 	defer cancel()
 	go func() {
 		for _, x := range [][]byte{c19SentinelWire(0), w, c19SentinelWire(2)} {
@@ -735,6 +750,15 @@ func c19NDDec(w []byte) (got jsonrpc.Message, err error, out []byte, frame strin
 			got, err, out = x, rerr, bytes.TrimRight(line, "\n")
 		} else if rerr != nil || !c19IsSentinel(x, i) || !c19JSONEq(bytes.TrimRight(line, "\n"), c19SentinelWire(i)) {
 			frame = "bad"
+		}
+		if ctx.Err() != nil {
+			c19Timeouts.Add(1)
+		}
+		if frame == "bad" {
+			if i == 0 {
+				err = fmt.Errorf("framing lost before the message: %v", rerr)
+			}
+			return
 		}
 	}
 	return
@@ -2100,16 +2124,29 @@ func TestVerif_C19(t *testing.T) {
 		O   c19MsgOut  `json:"o"`
 		Rep int        `json:"rep"`
 	}
+	aborted := 0
 	for _, x := range c19Par(c19Load[c19MsgCase](t, in, "cases_msg.ndjson"), reps, seed, 1, func(r *rand.Rand, c c19MsgCase, rep int) c19Res {
+		if c.Framing == "ndjson" && c19Timeouts.Load() >= c19MaxTimeouts {
+			return c19Res{} // the framing layer hangs: the hangs observed so far are reported, the rest is not run
+		}
 		o, din, dout := c19RunMsg(r, c)
 		f := o.F
 		bad := !(f.IDType && f.IDValue && f.Method && f.Params && f.Result && f.ErrCode && f.ErrMsg && f.ErrData) || o.Frame != "ok" || !o.Evmeta
 		return c19Res{msgLine{"msg", c, o, rep}, din, dout, bad}
 	}) {
+		if x.line == nil {
+			aborted++
+			continue
+		}
 		emit(x.line)
 		if x.detail {
 			detail(x.in, x.out)
 		}
+	}
+	if aborted > 0 {
+		os.WriteFile(outp+".aborted", []byte(fmt.Sprintf("%d newline-delimited cases not run after %d framing exchanges timed out\n", aborted, c19Timeouts.Load())), 0o644)
+	} else {
+		os.Remove(outp + ".aborted")
 	}
 	t.Logf("msg done %v lines=%d", time.Since(t0), line)
 	// 2. wire shapes
